@@ -92,7 +92,9 @@ func (E *Engine) VerifyFunc(key string, props []string) (err error) {
 				err = fmt.Errorf("%s: outside supported subset: %s", c.short, string(ee))
 				return
 			}
-			panic(r)
+			// an internal error of the generator must never look like a pass: report it as an
+			// undecided function (contract-binding obligation) instead of crashing the run
+			err = fmt.Errorf("%s: internal error of the VC generator: %v", c.short, r)
 		}
 	}()
 	E.analyzeLoops(c)
